@@ -41,32 +41,40 @@ def check(ctx):
                         sp.functions[0] = C.rng.choice(other)
                 sc.log.clear()
                 err = None
+                # grow is also called directly with depths other than the space's own (a shallower or a deeper budget)
+                gmin, gmax = sp.min_depth, sp.max_depth
+                if k % 4 == 3:
+                    gmin = C.rng.randint(1, 2)
+                    gmax = gmin + C.rng.randint(0, 2)
+                    while gmax == sp.max_depth and gmin == sp.min_depth:
+                        gmax += 1
                 try:
-                    t = sp.grow(sp.min_depth, sp.max_depth)
+                    t = sp.grow(gmin, gmax)
                 except Exception as ex:
                     err = type(ex).__name__ + ': ' + str(ex)[:80]
                 draws = [d for _, _, d in sc.log]
             finally:
                 sc.remove()
             if err is not None:
-                C.issue('grow-raised', 'oracle', dict(how='grow', functions=list(sp.functions), n_terminals=sp.n_terminals, min_depth=sp.min_depth,
-                                                      max_depth=sp.max_depth, draws=draws, first_functions=first_functions, inplace=inplace), error=err)
+                C.issue('grow-raised', 'oracle', dict(how='grow', functions=list(sp.functions), n_terminals=sp.n_terminals, min_depth=gmin,
+                                                      max_depth=gmax, draws=draws, first_functions=first_functions, inplace=inplace, space_max_depth=sp.max_depth), error=err)
                 continue
             real = T.canon(t)
-            model = gpops.model_grow(drv, sp, draws, sp.max_depth - sp.min_depth)
-            rp = dict(how='grow', functions=list(sp.functions), n_terminals=sp.n_terminals, min_depth=sp.min_depth,
-                      max_depth=sp.max_depth, draws=draws, first_functions=first_functions, inplace=inplace)
+            model = gpops.model_grow(drv, sp, draws, gmax - gmin)
+            rp = dict(how='grow', functions=list(sp.functions), n_terminals=sp.n_terminals, min_depth=gmin,
+                      max_depth=gmax, draws=draws, first_functions=first_functions, inplace=inplace, space_max_depth=sp.max_depth)
             if model != real:
                 C.issue('grow-mismatch', 'correspondence', rp, model=model, real=real)
-            wmodel = gpops.model_grow(drv, sp, draws, sp.max_depth - sp.min_depth, cmd='w.grow')
+            wmodel = gpops.model_grow(drv, sp, draws, gmax - gmin, cmd='w.grow')
             if wmodel != real:
                 C.issue('translated-grow-mismatch', 'correspondence', rp, model=wmodel, real=real)
             C.extra['translated_grow_runs'] = C.extra.get('translated_grow_runs', 0) + 1
             defects = T.wf_oracle(t, sp.n_variables, sp.n_dimensions)
             if defects:
                 C.issue('grown-tree-malformed', 'oracle', rp, defects=defects)
-            if t.max_depth > sp.max_depth:
-                C.issue('grown-tree-too-deep', 'oracle', rp, depth=t.max_depth)
+            # (depths count from `min_depth`: a call grow(lo, hi) may add hi - lo levels below its root)
+            if t.max_depth > gmax - gmin:
+                C.issue('grown-tree-too-deep', 'oracle', rp, depth=t.max_depth, budget=gmax - gmin)
             C.case(key=('grow', real), nontrivial=t.n_nodes >= 3, kind='grow', sample=dict(rp, tree=real))
         # ---- cross: exhaustive over pairs of shapes and points
         depth = 2
@@ -230,7 +238,7 @@ def replay(prop, payload):
             np = L['np']
             np.random.seed(0)
             sp = L['TreeSpace'](n_trees=1, n_terminals=payload['n_terminals'], n_variables=1, n_iterations=1,
-                                min_depth=payload['max_depth'], max_depth=payload['max_depth'],
+                                min_depth=payload.get('space_max_depth', payload['max_depth']), max_depth=payload.get('space_max_depth', payload['max_depth']),
                                 functions=payload.get('first_functions', payload['functions']), lower_bound=[0.0], upper_bound=[1.0])
             if payload.get('first_functions', payload['functions']) != payload['functions']:
                 if payload.get('inplace'):
@@ -244,5 +252,5 @@ def replay(prop, payload):
                 return True
         finally:
             sc.remove()
-        return bool(T.wf_oracle(t, 1, 1)) or t.max_depth > payload['max_depth']
+        return bool(T.wf_oracle(t, 1, 1)) or t.max_depth > payload['max_depth'] - payload['min_depth']
     return True
